@@ -54,6 +54,8 @@ class LoopSpec:
     def __init__(self, spec, modsrc=None):
         if isinstance(spec, str):
             spec = {"inv": spec}
+        self.raw = dict(spec)
+        self.roles = spec.get("roles", False)       # the expressions name variables by role (__target, __acc)
         self.inv_src = spec["inv"]
         self.tree = compile_expr(self.inv_src)
         self.modsrc = modsrc
